@@ -508,6 +508,10 @@ def run(chk):
         'C09: "the written dew point is the dew point" is an accuracy claim about an empirical '
         'correlation; measured (see measurements), decided only against the band %g inside 0..93 C'
         % DEW_BAND)
+    if not chk.broken() and not chk.violations:
+        for kf in chk.known_findings():
+            if kf['id'] == 'C09-molar-mass-constants':
+                chk.report_known(kf)
     chk.notes.append('psychrometrics uses 0.621945, hum_from_rhum_temp 0.62198: the humidity ratio '
                      'implied by the written fields is 0.62198/0.621945 = 1.0000563 times the rural '
                      'one (theorem moisture_deviation); conserved up to that constant')
